@@ -270,6 +270,107 @@ def component_algebra(rep: Report, ix):
         rep.violation("C19.component-algebra", f"{t.ref}::route", f"Tensor2Field.transpose no longer routes to self.convert('transposed') (found {[ast.unparse(c) for c in calls]})", line=t.node.lineno)
 
 
+# ----------------------------------------------------------------------------
+# (d) conversion of vector fields to Cartesian grids goes through the basis rotation
+# ----------------------------------------------------------------------------
+def conversion_routes(rep: Report, ix):
+    """interpolating a vector field onto a Cartesian grid changes the basis: the interpolated components must pass through
+    grid._vector_to_cartesian.  (1) VectorField.interpolate_to_grid: every returning path either keeps the grid class
+    (same class / Cartesian to Cartesian: same basis) or builds its data with _vector_to_cartesian from the interpolated
+    components; (2) the base implementation refuses (fields of rank >= 1 without their own conversion cannot be
+    re-labelled silently); (3) FieldCollection.interpolate_to_grid converts each member with the member's own
+    interpolate_to_grid(grid, ...) -- building `f.__class__(grid, f.interpolate(points))` bypasses the rotation."""
+    from ..cfg_lite import all_paths
+
+    # (1)
+    fv = [f for f in ix.funcs("pde/fields/vectorial.py", "VectorField.interpolate_to_grid") if "overload" not in f.decorator_names][0]
+    rep.saw("functions", fv.ref)
+
+    def ev(st):
+        if isinstance(st, ast.Assign) and len(st.targets) == 1 and isinstance(st.targets[0], ast.Name):
+            return "assign"
+        if isinstance(st, ast.Return):
+            return "return"
+        return None
+
+    n = 0
+    for path, oc in all_paths(fv.node, event=ev):
+        if oc != "return":
+            continue
+        env = {}
+        ret = None
+        for k, st in path.events:
+            if k == "assign":
+                env[st.targets[0].id] = st.value
+            else:
+                ret = st
+        if ret is None or not isinstance(ret.value, ast.Call):
+            raise AnalysisError(f"{fv.ref}: returned value is not a field constructor call")
+        n += 1
+        data = ret.value.args[1] if len(ret.value.args) > 1 else next((k.value for k in ret.value.keywords if k.arg == "data"), None)
+        while isinstance(data, ast.Name) and data.id in env:
+            data = env[data.id]
+        rotated = isinstance(data, ast.Call) and isinstance(data.func, ast.Attribute) and data.func.attr == "_vector_to_cartesian"
+        if rotated:
+            arg = data.args[1] if len(data.args) > 1 else None
+            while isinstance(arg, ast.Name) and arg.id in env:
+                arg = env[arg.id]
+            rotated = isinstance(arg, ast.Call) and isinstance(arg.func, ast.Attribute) and arg.func.attr == "interpolate" and dotted(arg.func.value) == "self"
+        # a path without rotation must have established that the basis does not change
+        conds = [ast.unparse(t) for t, pol in path.tests if pol]
+        same_basis = any("__class__ is grid.__class__" in c or ("isinstance(self.grid, CartesianGrid)" in c and "isinstance(grid, CartesianGrid)" in c) for c in conds)
+        ok = rotated or same_basis
+        rep.oblige(f"VectorField.interpolate_to_grid:path{n}: components rotated to the Cartesian basis or basis unchanged", ok, {"data": ast.unparse(data)[:80] if data is not None else None, "conditions": conds})
+        if not ok:
+            rep.violation(
+                "C19.conversion-route",
+                f"{fv.ref}::path-without-rotation",
+                f"a path of VectorField.interpolate_to_grid returns `{ast.unparse(data)[:80] if data is not None else None}` under {conds}: the components interpolated in the local basis are "
+                "neither rotated with grid._vector_to_cartesian nor known to refer to the same basis",
+                line=ret.lineno,
+            )
+    rep.floor("returning paths of VectorField.interpolate_to_grid", n, 2)
+    # (2)
+    fb = ix.func("pde/fields/datafield_base.py", "DataFieldBase.interpolate_to_grid")
+    rep.saw("functions", fb.ref)
+    body = [st for st in fb.node.body if not (isinstance(st, ast.Expr) and isinstance(st.value, ast.Constant))]
+    refuses = bool(body) and isinstance(body[-1], ast.Raise) and not any(isinstance(x, ast.Return) for x in ast.walk(fb.node))
+    rep.oblige("DataFieldBase.interpolate_to_grid refuses (no silent re-labelling of components)", refuses)
+    if not refuses:
+        rep.violation("C19.conversion-route", f"{fb.ref}::base", "the base implementation of interpolate_to_grid no longer refuses: fields of rank >= 1 without their own conversion are interpolated without a change of basis", line=fb.node.lineno)
+    # (3)
+    fc = ix.func("pde/fields/collection.py", "FieldCollection.interpolate_to_grid")
+    rep.saw("functions", fc.ref)
+    gparam = fc.node.args.args[1].arg if len(fc.node.args.args) > 1 else None
+    lambdas = [l for l in ast.walk(fc.node) if isinstance(l, ast.Lambda)]
+    nested = [d for d in ast.walk(fc.node) if isinstance(d, ast.FunctionDef) and d is not fc.node]
+    per_member = lambdas + nested
+    if len(per_member) != 1:
+        raise AnalysisError(f"{fc.ref}: expected exactly one per-member operation (lambda / local function), found {len(per_member)}")
+    op = per_member[0]
+    member = op.args.args[0].arg if op.args.args else None
+    body_expr = op.body if isinstance(op, ast.Lambda) else next((st.value for st in op.body if isinstance(st, ast.Return)), None)
+    ok = (
+        isinstance(body_expr, ast.Call)
+        and isinstance(body_expr.func, ast.Attribute)
+        and body_expr.func.attr == "interpolate_to_grid"
+        and isinstance(body_expr.func.value, ast.Name)
+        and body_expr.func.value.id == member
+        and body_expr.args
+        and isinstance(body_expr.args[0], ast.Name)
+        and body_expr.args[0].id == gparam
+    )
+    rep.oblige("FieldCollection.interpolate_to_grid converts each member with the member's own interpolate_to_grid(grid, ...)", bool(ok), ast.unparse(body_expr)[:100] if body_expr is not None else None)
+    if not ok:
+        rep.violation(
+            "C19.conversion-route",
+            f"{fc.ref}::per-member",
+            f"members of a collection are converted with `{ast.unparse(body_expr)[:100] if body_expr is not None else None}` instead of their own `interpolate_to_grid({gparam}, ...)`: vector members reach a "
+            "Cartesian grid with their local-basis components re-labelled as Cartesian ones (r*e_r becomes (r, 0) instead of (x, y))",
+            line=op.lineno,
+        )
+
+
 def check(tier: str) -> Report:
     rep = Report("C19", tier, "proof", "sympy identities on extracted coordinate maps (orthonormality, handedness, basis = normalised Jacobian); index-space typing (component order vs coordinate-system order)")
     rep.explanation = (
@@ -296,6 +397,7 @@ def check(tier: str) -> Report:
             rep.violation(rule, construct, msg, line=line)
     component_order_consistency(rep, ix)
     component_algebra(rep, ix)
+    conversion_routes(rep, ix)
     rep.assumptions += [
         "tensor algebra is interpreted for (dim, grid shape) in {(2,(3,)), (3,(2,)), (3,(2,4))}: the operations are written with einsum ellipses / whole-slice stores and are uniform in the grid axes; numpy indexing, broadcasting and einsum semantics as documented",
         "theta in (0, pi), r > 0, sigma in (0, pi): chart domains of the coordinate systems",
